@@ -128,6 +128,25 @@ def isRepeatAPI (idx : Index) (W : Int) (v : VW) (fuel : Nat) (parent : Block) (
     (txs : List Tx) : Walk :=
   isRepeat idx v (oldestAllowed W now) txs false fuel parent []
 
+/-- The tx selection of `Builder.BuildBlock` for one mempool batch (chain/builder.go): one
+`IsRepeat(parent, nextTime, txs)` for the batch; a marked tx is skipped (`dup.Contains(i)`, index
+into the batch as streamed); an unmarked tx is included iff it passes `PreExecute` at `nextTime`
+(C10's expiry interval; the other reasons for dropping a tx — fees, state keys, block limits —
+are outside this model). `none`: `IsRepeat` failed, the batch is restored and nothing is built
+from it. -/
+def builderSelectFrom (W now : Int) (m : List Nat) : Nat → List Tx → List Tx
+  | _, [] => []
+  | i, t :: rest =>
+    if m.contains i then builderSelectFrom W now m (i + 1) rest
+    else if now ≤ t.expiry ∧ t.expiry ≤ now + W then t :: builderSelectFrom W now m (i + 1) rest
+    else builderSelectFrom W now m (i + 1) rest
+
+def builderSelect (idx : Index) (W : Int) (v : VW) (fuel : Nat) (parent : Block) (now : Int)
+    (txs : List Tx) : Option (List Tx) :=
+  match isRepeatAPI idx W v fuel parent now txs with
+  | .ok m => some (builderSelectFrom W now m 0 txs)
+  | .err _ => none
+
 /-- The in-block duplicate check (first loop of `VerifyExpiryReplayProtection`). -/
 def hasDup : List Nat → Bool
   | [] => false
